@@ -10,7 +10,7 @@ import (
 	"time"
 
 	"verifmc/explore"
-	_ "verifmc/props"
+	"verifmc/props"
 )
 
 func main() {
@@ -25,6 +25,11 @@ func main() {
 		for _, id := range explore.IDs() {
 			fmt.Println(id)
 		}
+		return
+	case "--race-prog":
+		// mc --race-prog <tier> <index>  (only meaningful in the -race build)
+		i, _ := strconv.Atoi(args[2])
+		props.C04RaceProg(args[1], i)
 		return
 	case "--digest":
 		p := explore.Lookup(args[1])
